@@ -38,7 +38,7 @@ CLAIMED = {
             " and hand-assembled stacks vs buildSpec through the native driver) + hostile real histories (random assignment "
             "x{1,10,100}, all-negative, SGD/Adam lr 50 via GradientTape and model.fit, set_weights on a fresh model) + "
             "pairwise monotonicity / bounds oracle",
-            "Theorems (Props/C03.lean, C03System.lean): T1 every constraint establishes its invariant from any input, T2 in "
+            "Theorems (Props/C03.lean, C03System.lean, C03Init.lean): T1 every constraint establishes its invariant from any input, T2 in "
             "every graph buildSpec returns a constrained feature reaches the output only through monotone layers (all four "
             "shapes incl. RTL for every pair of shuffles), T3 output bounds incl. missing values. C03System instantiates the "
             "abstract System for EVERY layer graph (systemOf): the step relation is the models of the real constraint objects"
@@ -49,13 +49,25 @@ CLAIMED = {
             "each followed by the constraints, the CONCRETE composite forward g (realise g P w) is monotone in every "
             "constrained feature for all pairs of non-missing points and, under Nondegenerate, within the output bounds at "
             "every input incl. missing; C03_systemOf_any_start (after one step from ANY weights), C03_feasible_weights "
-            "(weights as data), shape corollaries C03_calibrated_linear / _lattice / C03_ensemble_explicit / _rtl.",
+            "(weights as data), shape corollaries C03_calibrated_linear / _lattice / C03_ensemble_explicit / _rtl. "
+            "C03Init: InitInv is DERIVED from C10's initializer models: per layer kind the initializer premade_lib passes "
+            "gives the component of InitInv (pwl_fresh_feas, cat_fresh_init, lat_fresh_feas, rtl_fresh_feas, kfl_fresh_feas, "
+            "lin_fresh_ok, out_fresh_feas), fresh_initInv for the freshly built state fresh g P D (buildSpec_shape proves the"
+            " shape facts), C03_from_fresh_model / C03_from_fresh_model_config (ranges as _output_range computes them): every"
+            " accepted spec, every history starting at the INITIALIZED state, no hypothesis on the initial weights; "
+            "C03_fresh_model_itself (n = 0).",
             "4/C03",
             "PARTIAL (`def C03_full` stays false): hypotheses beyond acceptance are exactly the recorded exclusions: "
             "trapClass (H_trap of C01; its complement contains F-C01-a, pinned for C03 too), Nondegenerate (F-C03-a), history"
             " non-empty or no categorical pairs (F-C03-b), RtlDraws (shuffles are permutations). layersAccept refuses a "
-            "duplicated identical Edgeworth trust (accepted by the real check; not generated). InitInv is a weight-level "
-            "predicate not tied to C10's initializer models; softmax rows and KFL root factors are data of the step relation;"
+            "duplicated identical Edgeworth trust (accepted by the real check; not generated). Hypotheses of "
+            "C03_from_fresh_model(_config) that remain: InitRange / OutInitOk (the user's output_initialization inside "
+            "[output_min, output_max], ascending under output calibration; outside lies the pinned known finding F-C03-g: "
+            "out_of_range_init_violates, descending_output_initialization_violates, reproduced on the real code and generated "
+            "on every run by the stream fresh_output_init, whose controls inside the bounds must hold) and FreshOk "
+            "(facts about the draws; LinWF of the all-vertices blocks' axis lists, which layersAccept does not carry: proved "
+            "from acceptance when no feature is unimodal, latWF_of_config); middle lattices of aggregate-function models are "
+            "not covered; softmax rows and KFL root factors are data of the step relation;"
             " the numeric tie pm.forward compares the composite with the real model after every history; that Keras "
             "re-applies constraints after every optimizer step is runtime behaviour exercised by the histories. "),
     "C11": ("AST translator -> literal Lean table -> decide +kernel obligations + generic round-trip theorem; exact "
@@ -142,7 +154,7 @@ CLAIMED = {
     "C07": ("Lean 4 theorems on an executable model of KFL evaluation and kernel/scale constraints (histories as op lists) + "
             "differential correspondence on the real layer under random constraint histories + pairwise-monotonicity/bounds "
             "oracle",
-            "Theorems (Props/C07.lean), all sizes/dims/terms/monotonicity subsets/bound modes: premises => output monotone in"
+            "Theorems (Props/C07.lean, C07Fix.lean), all sizes/dims/terms/monotonicity subsets/bound modes: premises => output monotone in"
             " every increasing input and within bounds (output_monotone, output_bounded). Schedule classes proved: (i) any "
             "run ending in a pure constraint tail containing both calls, from any finite kernel and scale "
             "(constraints_any_order_establish_premises, finalize_constraints_establishes_premises); (ii) ANY run of raw "
@@ -150,37 +162,53 @@ CLAIMED = {
             " ran after its variable's last raw update, monotonicity whenever no term's scale went to the opposite non-zero "
             "sign after the kernel constraint read it, and this condition is tight (sign_condition_tight); (iii) Keras "
             "training: after EVERY complete optimizer step, per-variable or batched, both clauses hold "
-            "(keras_training_monotone_and_bounded). Old guard counter-witness (fixed F-C07-a).",
+            "(keras_training_monotone_and_bounded). Old guard counter-witness (fixed F-C07-a). Feasible => unchanged "
+            "(Props/C07Fix.lean): kfl_feasible_fixed (KOk per term + a zero-scale term has a zero block + exact root factor,"
+            " with SOk: kernel and scale constraint return the pair unchanged), kfl_feasible_fixed_runs "
+            "(finalize_constraints() and every pure constraint run); both side conditions necessary (zero_scale_not_fixed, "
+            "as the real code; loose_root_not_fixed, model-only); kfl_feasible_accepted (KOk and SOk => the KFL assert model"
+            " accepts at eps = 0).",
             "4/C07",
             "The property as quantified over ALL orders of updates and constraints is FALSE for the code: PropertyAllOrders "
             "is kept as a def with property_all_orders_false; kernel constraint, then a raw scale update to the opposite "
             "sign, then the scale constraint is the pinned known finding F-C07-c (counter-witness theorems, generated every "
             "run). The dims-th root is an arbitrary factor r with r >= 1 and r^dims >= largest product (checked by the driver"
-            " on the code's float32 factor); float32 layer, tolerance 1e-4. "),
+            " on the code's float32 factor); `unchanged` needs the exact root (rootOk is only an inequality) and a zero "
+            "block under a zero scale; float32 layer, tolerance 1e-4. "),
     "C09": ("Lean 4 theorems on an explicit multi-unit model (units as trailing axis; index-set lemma + slice commutation for"
             " every strict stage, the Dykstra schedule and the whole LatticeConstraints.__call__; per-column lemmas for "
             "PWL/Linear/KFL) + exact-rational correspondence of the multi-unit model + real-vs-real differential (per-unit, "
             "unit permutation, row/batch) with x1/x100/x0.01 column magnitudes",
-            "Theorems (Props/C09.lean, C09Units.lean, C09Accepted.lean), all configurations/unit counts/kernels: every "
+            "Theorems (Props/C09.lean, C09Units.lean, C09Accepted.lean, C09Slots.lean), all configurations/unit counts/kernels: every "
             "multi-unit reduction and reshape named by the anchors acts on unit u exactly as the one-unit model of "
             "C01/C04/C06/C07 acts on the unit-u slice (finalize_per_unit, dykstra_per_unit, lattice_constraint_per_unit, "
             "pwl/linear/kfl per-unit lemmas); unit permutations follow. Against the executables: finalizeUT_per_unit (the "
             "executable multi-unit finalisation at unit u = the executable one-unit finalizeT of column u), "
             "lattice_constraint_per_unit_exec (unit u of LatticeConstraints.__call__ = the driver's latticeConstraintT on "
-            "column u, given the Dykstra table/function tie hdyk), pwl_callUnits_per_unit; accepted_cfgShape, "
-            "accepted_dcfgWF, accepted_finalizeUT_per_unit. Row independence is structural in the model and established on "
+            "column u), pwl_callUnits_per_unit; accepted_cfgShape, "
+            "accepted_dcfgWF, accepted_finalizeUT_per_unit. The Dykstra table/function tie hdyk is no longer a hypothesis "
+            "(Props/C09Slots.lean): projectByDykstraT_agree_positional proves it without repeated dict keys "
+            "(lattice_constraint_per_unit_exec_nodup / _noRepeats), hdyk_fails_on_repeated_tuple shows it false for a "
+            "repeated tuple; lattice_constraint_per_unit_exec_slotted: unit u of the slot-keyed multi-unit model constraintUS"
+            " = latticeConstraintT on column u for EVERY DCfgWF configuration, no tie hypothesis; "
+            "accepted_lattice_constraint_per_unit_exec: the same from verifyLattice = ok alone (accepted_dcfgWF_toDCfg). Row "
+            "independence is structural in the model and established on "
             "the code by the real-vs-real tie for every layer kind, CDF, the functional forms, ParallelCombination, "
             "Aggregation, RTL and premade models.",
             "4/C09",
             "The full PWL / Linear / Categorical constraints and the Linear / Categorical / Lattice forward passes are "
             "column-wise multi-unit models whose per-unit theorems are definitional: their content is the correspondence "
             "(un.pwlfull incl. the units-dependent convexity reshape, un.linfull, un.catfull). Model/Units.lean keeps the "
-            "POSITIONAL Dykstra loop, equal to C08's slot-keyed loop only when no constraint tuple is listed twice "
-            "(hypothesis hdyk); KFL full constraint per unit is an index identity only. "),
+            "POSITIONAL Dykstra loop (constraintU): the right multi-unit model only without repeated constraint tuples "
+            "(constraintUS_eq_constraintU; false otherwise: hdyk_fails_on_repeated_tuple); the slot-keyed constraintUS "
+            "(Lemmas/UnitsDykstraSlots.lean) covers every configuration. Both are function-level models (no driver op runs a "
+            "multi-unit Dykstra loop): tied to the real multi-unit call through the per-unit theorem + the one-unit "
+            "correspondence lat.constraint + the real-vs-real per-unit suites. KFL full constraint per unit is an index "
+            "identity only. "),
     "C10": ("Lean 4 theorems on executable initialiser models (linspace/valley/peak profiles, min/max of the outer sum, BFS "
             "level-order invariant for random-monotonic, reuse of C07 premises and C01/C12 fixpoint/acceptance lemmas) + "
             "exact-rational correspondence with recorded random draws + oracle on freshly built layers",
-            "Theorems (Props/C10.lean, C10Constraint.lean, C10Pwl.lean, C10Accepted.lean), every size/rank/bound and every "
+            "Theorems (Props/C10.lean, C10Constraint.lean, C10Pwl.lean, C10Accepted.lean, C07Fix.lean), every size/rank/bound and every "
             "permutation/sample (hence every seed): lattice linear init is linear along monotone dims, valley/peak along "
             "unimodal dims, constant along the others with min = init_min, max = init_max; random-monotonic init is "
             "non-decreasing along every axis, in range and total for every valid shuffle list (random_monotonic_init_total); "
@@ -190,14 +218,17 @@ CLAIMED = {
             "linear_init_is_fixpoint_of_constraint (incl. valley/peak dimensions), "
             "random_monotonic_init_is_fixpoint_of_constraint (no unimodality); PWL: pwl_equal_heights_is_fixpoint, "
             "pwl_equal_slopes_is_fixpoint; the C12 assert model accepts the lattice inits; accepted_linWF, "
-            "accepted_linear_init_is_fixpoint from constructor acceptance.",
+            "accepted_linear_init_is_fixpoint from constructor acceptance. KFL (Props/C07Fix.lean): the initial (kernel, "
+            "scale), every draw, default range or any [a, b] with 0 <= a (b <= 1 with both bounds), is a fixed point of the "
+            "kernel constraint, the scale constraint and finalize_constraints() (kfl_init_fixed, kfl_init_fixed_range) and "
+            "is accepted by the KFL assert model at eps = 0 (kfl_init_accepted, kfl_init_accepted_range).",
             "4/C10",
             "Known findings: F-C03-b (categorical pairs), F-C10-a/b/c (one-sided categorical bound, all-joint-unimodal "
             "lattice, Linear random_uniform), F-C10-d (lattice initialisers ignore trusts/dominances), F-C10-e (an explicit "
             "initialisation range outside the output bounds is accepted: explicit_range_outside_bounds_violates), F-C10-f "
-            "(negative KFL initialisation range: kfl_negative_range_not_monotone). KFL initial (kernel, scale) as a fixed "
-            "point of the KFL constraints and acceptance by the KFL assert are checked by the harness only; PWL acceptance by"
-            " the C12 assert model is not instantiated. "),
+            "(negative KFL initialisation range: kfl_negative_range_not_monotone). KFL fixed point and acceptance of the "
+            "initial (kernel, scale) are proved for one unit block (units are independent, C09) with the root factor 1 that "
+            "tf.pow(1.0, 1/dims) returns; PWL acceptance by the C12 assert model is not instantiated. "),
     "C14": ("Lean 4 theorems (sum/product exchange via C02's multilinear interpolant; list inductions on cumsum/diffs; "
             "row-major reshape arithmetic) on executable models reusing Kfl/LatticeEval/PwlEval + paired differential of the "
             "REAL callables + correspondence vs the native driver",
@@ -230,7 +261,7 @@ CLAIMED = {
             "as is, rank-2 keypoint_output_parameters with units > 1 is rejected (both required by upstream tests). "),
     "C12": ("Lean 4 iff-theorems (reduce_min/max <-> forall) on executable models of every assert_constraints + accept/reject"
             " differential on LP-generated feasible / single-violation / exact-threshold kernels",
-            "Theorems (Props/C12.lean, C12Units.lean, C12Norm.lean, C12Bridge.lean): accepts = true <-> every covered "
+            "Theorems (Props/C12.lean, C12Units.lean, C12Norm.lean, C12Bridge.lean, C12Feasible.lean): accepts = true <-> every covered "
             "constraint has slack >= -eps, for categorical, linear, PWL, all seven asserted lattice kinds incl. the trailing "
             "unit axis, KFL monotonicity and bounds (kfl_iff). Layer level: the call on the whole (n, units) kernel with the "
             "real reductions over the unit axis is accepted iff EVERY unit column is (categorical/linear/pwl_outputs/kfl "
@@ -238,11 +269,16 @@ CLAIMED = {
             "cumulative sums of the kernel column, closed when cyclic. Order-2 norm for EVERY rational kernel and eps, "
             "root-free (normOk_l2_sq_iff*) and with Real.sqrt (normOk_l2_real_iff). Bridges at eps = 0 to the feasibility "
             "predicates of C06 (categorical_zero_iff_feasible, linear_accepted_fixed), C04 (pwl_zero_iff_c04) and C08 "
-            "(lattice_zero_iff_feasibleD, lattice_accepted_groups_fix).",
+            "(lattice_zero_iff_feasibleD, lattice_accepted_groups_fix). Every eps (Props/C12Feasible.lean): accepts eps <-> "
+            "an explicit eps-relaxed feasible set in the projection's vocabulary, equal to the exact predicate at eps = 0: "
+            "PWL incl. clamps (pwl_eps_iff, pwlFeasibleEps_zero_iff_c04; pwl_projection_accepted: what projectAll returns is "
+            "accepted), categorical_eps_iff, lattice_eps_iff, KFL (kfl_eps_iff, kfl_zero_iff_c07: with the untested sign "
+            "clause = C07's KOk and SOk; kfl_constraints_accepted). Coverage-gap counter-witnesses reproduced on the real "
+            "code: pwl_convexity_not_asserted, kfl_kernel_sign_not_asserted.",
             "4/C12",
             "coverage gaps of the real asserts (unimodality, KFL non-negativity with both / no bounds, PWL convexity) are "
-            "reported in evidence notes, not as violations; no bridge for the linear norm clause, KFL, PWL clamps and for eps"
-            " > 0. F-C12-e (learned keypoints judged at the initial keypoints) and F-C12-f (a keypoint equal to "
+            "reported in evidence notes, not as violations; no bridge for the linear norm clause and no eps-relaxed form for "
+            "the linear asserts; kfl_constraints_accepted assumes the run keeps the full kernel shape. F-C12-e (learned keypoints judged at the initial keypoints) and F-C12-f (a keypoint equal to "
             "missing_input_value never judged) were found here and are fixed in /repo (57c7e1f, 164b31b); the harness ties "
             "the real call to the layer-level model. "),
     "C13": ("Lean 4 theorems over index-function tensors (reindexing by nodup bijection, List.Perm, induction) on code-shaped"
@@ -264,19 +300,30 @@ CLAIMED = {
             "(torsion_neg_list_witness, laplacian_neg_witness). "),
     "C17": ("Lean 4 theorems on executable models of _get_rtl_structure / random ensemble / pair cover / Crystals (randomness"
             " as explicit permutations) + differential correspondence with replayed permutations + oracle",
-            "Theorems (Props/C17.lean), all sizes and ALL permutations/draws: RTL exact rank, every input used, usage counts "
+            "Theorems (Props/C17.lean, C17Score.lean, C17ScorePos.lean), all sizes and ALL permutations/draws: RTL exact rank, every input used, usage counts "
             "differ by <= 1, monotone wiring and output label (0 < #inputs from acceptance: rtl_accepted_has_inputs); random "
             "ensemble (rank, no repeats, coverage, totality under the code's preconditions); all-pairs cover complete for "
             "EVERY rank (pair_cover_any_rank; sizes <= rank for rank >= 2, exactly two features per lattice at rank <= 1); "
             "Crystals end to end for strictly positive importance scores (crystals_structure); determinism in the form "
             "`structure = model function of (config, draws), draws = gen seed cfg` for an arbitrary generator gen "
-            "(rtl_/random_/cover_/crystals_deterministic, *_depends_on_draws_only).",
+            "(rtl_/random_/cover_/crystals_deterministic, *_depends_on_draws_only). The Crystals SCORING path is in the "
+            "model (Model/CrystalsScore.lean: torsionsAndLaplacians, importanceScores, crystalsFromKernels; driver ops "
+            "cscore.norm / cscore.tl, harness stream cscore): scores computed from ANY prefitting kernels are >= 0 "
+            "(scores_nonneg, discharging the torsion / empty-score hypotheses of crystals_structure), structure from kernels "
+            "(crystals_from_kernels_structure, crystals_from_kernels_structure_of_kernels), scoring defined iff no constant "
+            "kernel (normalizeKernel_ok / normalizeKernel_constant, torsionsAndLaplacians_ok), positive importance from a "
+            "kernel that is not flat in the feature (importance_pos_of_not_flat, lapAt_eq_zero_iff), determinism through the "
+            "kernels only (crystals_from_kernels_congr, crystals_depends_on_kernels_only).",
             "4/C17",
             "NumPy's generator is a parameter of the determinism theorems; that the real code draws from a generator seeded "
             "with random_seed and from nothing else is checked by running every stream twice per (config, seed) and by "
             "replaying RandomState(seed). Zero-score (or float-absorbed-score) features are known finding F-C17-a "
             "(crystals_zero_score_witness); a CONSTANT prefitting kernel makes the real score normalisation 0/0 (F-C17-b: "
-            "found by the un-patched `crystals_real` stream; the scores are inputs of the Lean model); an RTL layer without "
+            "found by the un-patched `crystals_real` stream; model: normalizeKernel_constant, "
+            "scoring_path_findings_witness). `0 < importance` REMAINS an explicit hypothesis of the structure theorem (the "
+            "converse of importance_pos_of_not_flat is not proved); the training that produces the prefitting kernels "
+            "(parameter prefit seed cfg) and NumPy's argsort tie order (parameter argsort) are outside the model; float32 "
+            "rounding of the regularizers is compared at rtol 1e-5 by the cscore stream; an RTL layer without "
             "inputs is outside the quantifier (rtl_no_inputs_raises); `no repeated feature inside a final Crystals lattice` "
             "is not claimed by the property and not proved. "),
     "C18": ("Lean 4 theorems on an executable model of compute_keypoints / _weighted_quantile (half-even rounding with "
@@ -348,7 +395,7 @@ CLAIMED = {
             "mode and finalize_constraints()). "),
     "C08": ("Lean 4 model of project_by_dykstra (all group projections + schedule) + differential correspondence per family "
             "and combined + fixpoint / convergence / QP-nearest-point oracle (scipy SLSQP)",
-            "Theorems (Props/C08.lean, C08Shared.lean, C08Accepted.lean): the model keys every Dykstra roll-back slot like "
+            "Theorems (Props/C08.lean, C08Shared.lean, C08Accepted.lean, C08Range.lean): the model keys every Dykstra roll-back slot like "
             "the Python dict last_change (SlotKey, groupKeys), so constraint tuples listed twice share a slot as in the real "
             "code (dup_slots_differ). Feasible/fixed kernels are returned unchanged for EVERY iteration count, telescoping "
             "invariant for ANY group maps, every stencil map is the exact Euclidean projection (lands, fixes, variational "
@@ -362,11 +409,21 @@ CLAIMED = {
             "visiting order with repetitions; repeated constraint tuples allowed): for every configuration without range "
             "dominance and every kernel the function-level and executable loops converge to the Euclidean-nearest feasible "
             "kernel, the violation tends to 0. C08Accepted: accepted_converges derives the hypotheses from constructor "
-            "acceptance up to two side conditions. ",
+            "acceptance up to two side conditions. Range dominance (C08Range.lean, Lemmas/DykstraConvRange*.lean): the step "
+            "establishes the constraint of the visited vertex for ALL sizes and ALL vertices (rangeDomGroup_lands, "
+            "rangeDomGroup_removes_violation); at every vertex except the two doubled corners (0, N-1), (M-1, 0) it IS the "
+            "half-space projection of its stencil (rangeDomGroup_eq_halfspace, rangeDomGroup_lands_halfspace, "
+            "rangeDomGroup_vi); at the doubled corners it is not non-expansive towards feasible kernels "
+            "(rdStep_doubled_corner, rangeDom_doubled_corners_expand), both are scheduled by every configuration with a "
+            "range dominance (rangeDom_schedule_has_doubled_corners), and the loop's stationary result need not be nearest "
+            "(rangeDom_loop_result_not_nearest, same on the real code for 1..3000 iterations). ",
             "4/C08",
             "PARTIAL: range dominance is outside the convergence theorem (the property does not claim a nearest-point limit "
-            "for it; its corner map is proved NOT to be a Euclidean projection, rangeDom_corner_not_projection) and is tested"
-            " against scipy SLSQP / violation -> 0 each run; the RATE of convergence and the PWL iterative projection's limit"
+            "for it; exactly two of its M*N vertex maps, the doubled corners, are proved NOT to be projections, all others are "
+            "proved exact projections: Props/C08Range.lean; not a C08 violation) and `violation -> 0` with range dominance "
+            "stays TESTED, not proved (scipy SLSQP each run; a 400-case simulation of the model loop found geometric decay); "
+            "the doubled corners were replayed on the real function (design_probes/c08range) and a 6-line repair of "
+            "_project_partial_range_dominance (corner -/+ diff/3, the two others +/- diff/6) exists but was NOT applied; the RATE of convergence and the PWL iterative projection's limit"
             " are covered by the oracle here and by C04's model. From acceptance only the side condition `no range dominance` remains"
             " a hypothesis of verifyLattice_cfgShape / accepted_converges; `no (d, d) pair` follows from acceptance since /repo's "
             "repair 18dd711 (AcceptedFacts.distinct via verifyDominances_distinct, selfPair_rejected). F-C08-a (dict key without direction), "
